@@ -19,7 +19,7 @@ RULE = ('An explicit table of public callables that take array-like arguments (f
         'where a deg flag exists; acc/mag of arbitrary scale; weights not summing to 1; float64 C-contiguous arrays and views). Every '
         'table entry is called with fresh copies; for constructor-then-method entries (UKF(P=).update, EKF(P=).update, Mahony(b0=).update*, '
         '<Estimator>(weights=).estimate, ...) the arrays given to the constructor are watched during the later method call too. Oracle: the bytes of every ndarray argument (also nested in tuples/lists) are '
-        'identical before and after the call; a second call on a fresh '
+        'identical before and after the call; for methods of Quaternion / QuaternionArray / DCM the receiver (buffer and .A / .array) is watched too unless the call is an explicit in-place request, and a second identical call on the same object must return the same bytes; a second call on a fresh '
         'instance with identical argument values (same NumPy seed for the randomised OLEQ start) returns byte-identical results. '
         'Explicit in-place operations (normalize, remove_jumps, inplace=True) and random generators are exempt. Non-trivial: '
         'the callee has to change its argument internally (non-unit quaternion, degree flag, non-unit vectors, weights not '
@@ -178,6 +178,17 @@ def build_table():
     add('QuaternionArray.average[span]', lambda d: (QuaternionArray(d.c('Qs')).average, [], {'span': (0, 2)}))
     add('QuaternionArray.rotate_by', lambda d: (QuaternionArray(d.c('Qs')).rotate_by, [d.c('q')], {}))
     add('QuaternionArray.slerp_nan[inplace=False]', lambda d: (QuaternionArray(d.c('Qs')).slerp_nan, [], {'inplace': False}))
+
+    def _with_jumps_and_gap(d):
+        A = d.c('Qs')
+        A[1::2] *= -1.0                     # every other row in the opposite hemisphere (same rotations)
+        Qj = QuaternionArray(A)
+        if d.n >= 4:
+            Qj[2] = np.nan                  # a one-row gap, set after construction as in the method's own docstring
+        return Qj
+    add('QuaternionArray.slerp_nan[inplace=False,jumps]', lambda d: (_with_jumps_and_gap(d).slerp_nan, [], {'inplace': False}))
+    add('QuaternionArray.to_DCM[jumps]', lambda d: (_with_jumps_and_gap(d).to_DCM, [], {}))
+    add('QuaternionArray.angular_velocities[jumps]', lambda d: (_with_jumps_and_gap(d).angular_velocities, [0.01], {}))
     add('QuaternionArray.to_DCM', lambda d: (QuaternionArray(d.c('Qs')).to_DCM, [], {}))
     add('QuaternionArray.angular_velocities', lambda d: (QuaternionArray(d.c('Qs')).angular_velocities, [0.01], {}))
     # ---- dcm module
@@ -363,6 +374,18 @@ def _result_arrays(r, out, depth=0):
             _result_arrays(v, out, depth+1)
 
 
+INPLACE_METHODS = {'normalize', 'remove_jumps'}      # explicit in-place operations by name; others announce it with inplace=True
+
+
+def _receiver_bytes(obj):
+    out = [np.ascontiguousarray(np.asarray(obj)).tobytes()]
+    for attr in ('A', 'array'):
+        v = getattr(obj, attr, None)
+        if isinstance(v, np.ndarray):
+            out.append(np.ascontiguousarray(v).tobytes())
+    return out
+
+
 def _flatten(r):
     """Comparable byte representation of a result (arrays, tuples, scalars, objects with a Q/W/A/R attribute)."""
     if isinstance(r, np.ndarray):
@@ -398,6 +421,11 @@ def evaluate(case, ctx):
         if len(made) > 3:
             _arrays(made[3], arrs, 'ctor_kw')      # arrays the caller gave to the constructor of the object whose method is called
         before = [(p, a.tobytes(), a) for p, a in arrs]
+        # methods of the value classes: the receiver is itself an array handed over by the caller; unless the call is an explicit
+        # in-place request it must be left as it was, and a second identical call ON THE SAME OBJECT must return the same
+        recv = getattr(fn, '__self__', None)
+        watch_recv = isinstance(recv, np.ndarray) and not kw.get('inplace', False) and name.split('.')[-1].split('[')[0] not in INPLACE_METHODS
+        recv_before = _receiver_bytes(recv) if watch_recv else None
         np.random.seed(seed % (2**31))
         try:
             r1 = fn(*args, **kw)
@@ -407,6 +435,19 @@ def evaluate(case, ctx):
         for p, b, a in before:
             if a.tobytes() != b:
                 ctx.fail(f'{name}|mutates_argument|{p.split("[")[0].split(".")[0]}', f'{name}: {p} changed by the call')
+        if watch_recv:
+            ctx.label('receiver_watched')
+            if _receiver_bytes(recv) != recv_before:
+                ctx.fail(f'{name}|mutates_receiver', f'{name}: the object the method was called on changed (not an in-place request)')
+            elif e1 is None and repeat:
+                np.random.seed(seed % (2**31))
+                try:
+                    r1b, e1b = fn(*[np.array(a) if isinstance(a, np.ndarray) else a for a in args], **kw), None
+                except Exception as e:
+                    r1b, e1b = None, e
+                if e1b is not None or _flatten(r1b) != _flatten(r1):
+                    ctx.fail(f'{name}|not_repeatable_on_same_object', f'{name}: second identical call on the same object '
+                             + (f'raised {type(e1b).__name__}' if e1b is not None else 'returned something else'))
         if not repeat:
             continue
         d2 = D(seed, n, view)
